@@ -111,6 +111,8 @@ pub fn number_spellings() -> Vec<String> {
         "2.2250738585072012e-308", "4.9e-324", "2.4703282292062327e-324", "2.4703282292062328e-324", "1e308", "1.7976931348623157e308", "1.7976931348623158e308", "1.7976931348623159e308", "1e309", "-1e309", "1e-400", "-1e-400",
         "1e400", "0.000000000000000000000000000000000000000000001", "100000000000000000000000", "1.0000000000000002", "1.00000000000000011102230246251565404236316680908203125", "1.00000000000000011102230246251565404236316680908203124",
         "1.00000000000000011102230246251565404236316680908203126", "5e-324", "3e-324", "0e999", "0.0e-999", "1E5", "1e05", "1e-05", "255", "256", "65535", "65536", "4294967295", "4294967296", "-128", "-129", "-32768", "-32769", "-2147483648", "-2147483649",
+        // exponent without a fraction (negative, upper case), integers inside every signed width class
+        "5e-1", "1e-2", "3e-1", "25E-2", "7E-2", "1E5", "-25E2", "128", "200", "-200", "-255", "-256", "-257", "32768", "40000", "-40000", "-65535", "-65536", "2147483648", "3000000000", "-3000000000", "-4294967295", "-4294967296", "-4294967297",
     ]
     .iter()
     .map(|s| s.to_string())
